@@ -147,6 +147,17 @@ CLAIMS.update({
         note=TRUST + 'C14: the unit compiles a line-preserving control-flow rewrite of htp_mpartp_parse (each goto STATE_SWITCH -> flag + jump to the loop end; aborts as UNDECIDED if a pattern does not fire) and a model of the boundary_pieces builder; bstr_builder_append_mem on boundary_pieces assumed not to fail (KNOWN_F_C14_APPEND_FAIL, allocation failure only).'),
 })
 
+CLAIMS.update({
+    'C18': dict(
+        text=('Two layers. (1) EVERY unit of every property runs with every malloc/calloc/realloc/strdup allowed to fail independently, so each NULL branch of each function under contract is explored in all '
+              'combinations and the post-condition (well-formedness included) must hold on the error return too. (2) Ownership lemma units "call f ; then the REAL teardown that later runs" with all allocation-failure '
+              'patterns, double-free / use-after-free / invalid-free obligations and a leak check where the harness owns everything: authorization (basic), hostport (CONNECT and Host header), connection open/close, '
+              'multipart Content-Disposition, urlencoded body parameters (real htp_tx_destroy_incomplete), list/table add families, header producers (both directions), decompressor chain. Seven double-free / '
+              'use-after-free defects found this way are repaired in /repo. This is stronger per function (all failure patterns) and weaker globally (no whole-run k-th-allocation enumeration) than the statement\'s quantifier.'),
+        design='4/C18', technique='CBMC lemma harnesses (f ; real teardown) under --malloc-may-fail with double-free/UAF/leak obligations; allocation failure enabled in all contract units',
+        note=TRUST + 'C18: no units for htp_tx_create;destroy (symex does not finish), hooks, config copy, connp create/destroy, digest auth; leaks under allocation failure are not violations of C18 as stated and are recorded as observations.'),
+})
+
 NOT_YET = 'not yet built in this session (planned in DESIGN.md section 4); no check is registered, so nothing is claimed'
 NA = {
     'C08': 'amortised cost over a whole stream is not program state expressible at a function boundary; per-loop variants are proved and reported under C01 (DESIGN.md section 5)',
